@@ -9,7 +9,17 @@
 
 package types
 
+//@ ghost bigtext.ok Bool
+
 // ---------------------------------------------------------------- Int
+
+// C20: the shared text decoder of Int/Uint (amino and JSON) accepts exactly the integers of at most
+// 255 bits that math/big can parse; an accepted value is therefore always in range
+//@ func unmarshalText(i *big.Int, text string) (err error)
+//@   props C20 C18
+//@   requires i != nil
+//@   modifies BIG[i], bigtext.ok
+//@   ensures (err == nil) == (bigtext.ok && abs(BIG[i]) < pow2(255))
 
 //@ func (i Int) BigInt() (r *big.Int)
 //@   props C18
